@@ -765,6 +765,7 @@ fn op_enum_map(c: &Value, ev: &mut Map<String, Value>) -> Result<(), String> {
     let field = c["field"].as_str().ok_or("field")?;
     let lo = c["lo"].as_u64().unwrap_or(0) as u32;
     let hi = c["hi"].as_u64().unwrap_or(65535) as u32;
+    let ctx: Option<u16> = c["ctx"].as_u64().map(|x| x as u16);
     let o = guarded(|| {
         let mut acc = Vec::new();
         let mut tested = 0u64;
@@ -803,8 +804,48 @@ fn op_enum_map(c: &Value, ev: &mut Map<String, Value>) -> Result<(), String> {
                             one_avp_record(x, &p)
                         }
                     };
-                    let mut r = SliceReader::from(&rec[..]);
-                    let items = AVP::try_read_greedy(&mut r);
+                    // ctx absent: the record alone through AVP::try_read_greedy; ctx = a message-type code: the
+                    // record inside a whole control message behind that Message Type (ctx 0: the record is the
+                    // message's first and only AVP), through Message::try_read_validate -- an enumerated code must
+                    // not be treated differently there
+                    let items: Vec<Result<AVP, DecodeError>> = match ctx {
+                        None => {
+                            let mut r = SliceReader::from(&rec[..]);
+                            AVP::try_read_greedy(&mut r)
+                        }
+                        Some(mt) => {
+                            let mut body = if mt == 0 { Vec::new() } else { one_avp_record(0, &mt.to_be_bytes()) };
+                            body.extend_from_slice(&rec);
+                            let n = 12 + body.len();
+                            let mut w = vec![0x13u8, 0x20, (n >> 8) as u8, n as u8, 0, 1, 0, 2, 0, 3, 0, 4];
+                            w.extend_from_slice(&body);
+                            let mut r = SliceReader::from(&w[..]);
+                            match Message::try_read_validate(&mut r, opts_from(&json!([true, true, true]))) {
+                                Ok(Message::Control(m)) => {
+                                    let skip = if mt == 0 { 0 } else { 1 };
+                                    let rest: Vec<Result<AVP, DecodeError>> = m.avps.into_iter().skip(skip).map(Ok).collect();
+                                    if rest.is_empty() {
+                                        // accepted, but the AVP carrying the code is gone
+                                        vec![Err(DecodeError::EmptyHiddenAVP), Err(DecodeError::EmptyHiddenAVP)]
+                                    } else {
+                                        rest
+                                    }
+                                }
+                                Ok(_) => vec![],
+                                Err(mut es) => {
+                                    if es.len() == 1 {
+                                        vec![Err(es.remove(0))]
+                                    } else {
+                                        vec![]
+                                    }
+                                }
+                            }
+                        }
+                    };
+                    if ctx.is_some() && items.len() == 2 && items[0].is_err() {
+                        acc.push(json!([x, "accepted-but-dropped", []]));
+                        continue;
+                    }
                     match items.first() {
                         Some(Ok(a)) if items.len() == 1 => {
                             let j = avp_to_json(a);
@@ -938,6 +979,7 @@ fn op_bitmask(c: &Value, ev: &mut Map<String, Value>) -> Result<(), String> {
         .iter()
         .map(json_fixed::<4>)
         .collect::<Result<_, _>>()?;
+    let surplus: Vec<u8> = if c["surplus"].is_null() { Vec::new() } else { json_bytes(&c["surplus"])? };
     let o = guarded(|| -> Result<(Vec<Value>, Vec<Value>), String> {
         macro_rules! go {
             ($ty:ident, $first:ident, $second:ident) => {{
@@ -958,7 +1000,11 @@ fn op_bitmask(c: &Value, ev: &mut Map<String, Value>) -> Result<(), String> {
                 }
                 let mut wire = Vec::new();
                 for w in &words {
-                    let mut r = SliceReader::from(&w[..]);
+                    // (surplus payload octets behind the 32 bits are ignored by the crate's layout: the word is
+                    // the FIRST four octets whatever follows)
+                    let mut full = w.to_vec();
+                    full.extend_from_slice(&surplus);
+                    let mut r = SliceReader::from(&full[..]);
                     let x = types::$ty::try_read(&mut r).map_err(|e| format!("{e:?}"))?;
                     let mut d = describe(x);
                     d["w"] = bytes_json(w);
